@@ -390,7 +390,9 @@ func c18ComboRegime(c *core.Ctx) {
 	ff := core.NewFuncFlow(fd)
 	ld := core.NewLocalDefs(info, fd.Decl.Body)
 	for _, mname := range []string{"InCategories", "InCategoryRates"} {
-		calls := core.CallsTo(info, fd.Decl.Body, func(f *types.Func) bool { return f.Name() == mname && core.RecvNamed(f) != nil && core.RecvNamed(f).Obj().Name() == "RegimeDef" })
+		calls := core.CallsTo(info, fd.Decl.Body, func(f *types.Func) bool {
+			return f.Name() == mname && core.RecvNamed(f) != nil && core.RecvNamed(f).Obj().Name() == "RegimeDef"
+		})
 		if len(calls) == 0 {
 			c.Ob("C18-R4", fd.Name()+"#"+mname, fd.Decl.Pos(), false, "the combo validator does not use "+mname)
 			continue
@@ -539,12 +541,20 @@ func elementsValidated(p *core.Program, tv *typeVal) bool {
 func c18Consult(c *core.Ctx) {
 	p := c.P
 	need := map[string]func(f *types.Func) bool{
-		"currency.Code":       func(f *types.Func) bool { return f.Pkg().Path() == core.ModPath+"/currency" && (f.Name() == "Get" || f.Name() == "get" || f.Name() == "Def") },
+		"currency.Code": func(f *types.Func) bool {
+			return f.Pkg().Path() == core.ModPath+"/currency" && (f.Name() == "Get" || f.Name() == "get" || f.Name() == "Def")
+		},
 		"l10n.ISOCountryCode": func(f *types.Func) bool { return f.Pkg().Path() == core.ModPath+"/l10n" && f.Name() == "ISO" },
 		"l10n.TaxCountryCode": func(f *types.Func) bool { return f.Pkg().Path() == core.ModPath+"/l10n" && f.Name() == "Tax" },
-		"tax.Extensions":      func(f *types.Func) bool { return f.Pkg().Path() == core.ModPath+"/tax" && f.Name() == "ExtensionForKey" },
-		"tax.Combo":           func(f *types.Func) bool { return f.Pkg().Path() == core.ModPath+"/tax" && (f.Name() == "InCategories" || f.Name() == "InCategoryRates") },
-		"tax.Addons":          func(f *types.Func) bool { return f.Pkg().Path() == core.ModPath+"/tax" && (f.Name() == "AddonForKey" || f.Name() == "AddonRegistered") },
+		"tax.Extensions": func(f *types.Func) bool {
+			return f.Pkg().Path() == core.ModPath+"/tax" && f.Name() == "ExtensionForKey"
+		},
+		"tax.Combo": func(f *types.Func) bool {
+			return f.Pkg().Path() == core.ModPath+"/tax" && (f.Name() == "InCategories" || f.Name() == "InCategoryRates")
+		},
+		"tax.Addons": func(f *types.Func) bool {
+			return f.Pkg().Path() == core.ModPath+"/tax" && (f.Name() == "AddonForKey" || f.Name() == "AddonRegistered")
+		},
 		"tax.Regime": func(f *types.Func) bool {
 			return f.Pkg().Path() == core.ModPath+"/tax" && (f.Name() == "RegimeDefFor" || (f.Name() == "For" && core.RecvNamed(f) != nil && core.RecvNamed(f).Obj().Name() == "RegimeDefCollection"))
 		},
